@@ -44,6 +44,25 @@ pub fn sources() -> Vec<Src> {
             }
         }
     }
+    // two adjacent identical references whose pair straddles the field limit: the first is in
+    // range, the second (one statement further from a backward label) is not
+    for kind in REF_KINDS {
+        let b = kind.bits();
+        let pad = (1u32 << (b - 1)) - 2; // label at 0, padding, first reference at distance -(2^(b-1))
+        let mut p = Program::default();
+        p.push(Some("far"), Stmt::Named(0x25, "halt"));
+        p.push(None, Stmt::Blkw(Lit::hex((pad + 1 - 1) as u16)));
+        p.push(None, kind.stmt("far", 1));
+        p.push(None, kind.stmt("far", 1));
+        v.push(Src { name: format!("pair-straddling-limit-{}", kind.name()), text: print_plain(&p), class: if kind == RefKind::Call { "emission-error-stack" } else { "emission-error" } });
+        // and the same pair one statement earlier: both in range
+        let mut p = Program::default();
+        p.push(Some("far"), Stmt::Named(0x25, "halt"));
+        p.push(None, Stmt::Blkw(Lit::hex((pad - 1) as u16)));
+        p.push(None, kind.stmt("far", 1));
+        p.push(None, kind.stmt("far", 1));
+        v.push(Src { name: format!("pair-inside-limit-{}", kind.name()), text: print_plain(&p), class: if kind == RefKind::Call { "valid-stack" } else { "valid" } });
+    }
     // programs whose image ends around the top of user space and of memory: the assembler has no
     // opinion on where a program is loaded, so all of them assemble (loading may fail later)
     for (orig, n) in [(0xFD00u32, 0x2FEu32), (0xFD00, 0x2FF), (0xFD00, 0x300), (0xFDF0, 0x10), (0xFF00, 0xFD), (0xFF00, 0xFE), (0xFF00, 0xFF), (0xFF00, 0x100), (0xFFFE, 1), (0xFFFF, 0), (0xFFFF, 1), (0x0000, 0xFFFD), (0x0000, 0xFFFE), (0x0001, 0xFFFE)] {
